@@ -37,12 +37,23 @@ let std_itw f n = FFT.get_inv_twiddles (ops f) (adn f) (rootf f) (nat_of_int n)
 (* TW token: `std` or explicit vector; None = computing the standard twiddles panics *)
 let tw_of f tok n inv = if tok = "std" then (if inv then std_itw f n else std_tw f n) else Some (vec tok)
 
+(* the CHECKED model (explicit panics, debug profile) must agree with the model that is compared with the crate;
+   run for small cases only (it re-checks lengths at every access) *)
+let small n = n <= 512
+let agree (a : string) (b : string) = if a = b then a else "model-mismatch checked=" ^ b ^ " total=" ^ a
+
 let mulp f a b = (ops f).FieldOps.fmul a b
 let inv f a = ZpOps.zp_inv f.p a
 
 let eval = function
-  | [ "twiddles"; fl; n ] -> let f = fld_of fl in opt_vec (std_tw f (int_of_string n))
-  | [ "inv_twiddles"; fl; n ] -> let f = fld_of fl in opt_vec (std_itw f (int_of_string n))
+  | [ "twiddles"; fl; n ] ->
+    let f = fld_of fl in
+    let r = opt_vec (std_tw f (int_of_string n)) in
+    if small (int_of_string n) then agree r (opt_vec (FFT.get_twiddles_c (ops f) true (adn f) (rootf f) (nat n))) else r
+  | [ "inv_twiddles"; fl; n ] ->
+    let f = fld_of fl in
+    let r = opt_vec (std_itw f (int_of_string n)) in
+    if small (int_of_string n) then agree r (opt_vec (FFT.get_inv_twiddles_c (ops f) true (adn f) (rootf f) (nat n))) else r
   | [ "spec:twiddles"; fl; n ] | [ "spec:inv_twiddles"; fl; n ] as l ->
     let f = fld_of fl in
     let n = int_of_string n in
@@ -55,12 +66,19 @@ let eval = function
     let sz = z_of_dec size and ix = z_of_dec idx in
     let r64 = FFT.permute_index_u64 (n_of_z sz) (n_of_z ix) in
     let s64 = match r64 with None -> "panic" | Some r -> dec_of_z (z_of_n r) in
+    (* the term rs2v generates from math/src/fft/mod.rs *)
+    let gen = dec_of_z (FftIndex.fftidx_permute_index sz ix) in
+    let s64 = if r64 <> None && (gen <> s64 || not (FftIndex.fftidx_permute_index_ok sz ix)) then "model-mismatch generated=" ^ gen ^ " model=" ^ s64 else s64 in
     (* the nat-level model used by the rest of the development must agree where it is computable *)
     if Stdlib.String.length size <= 5 && r64 <> None then begin
       let rn = string_of_int (int_of_nat (FFT.permute_index (nat size) (nat idx))) in
       if rn <> s64 then "model-mismatch u64=" ^ s64 ^ " nat=" ^ rn else s64
     end else s64
-  | [ "permute"; fl; v ] -> let f = fld_of fl in show_vec (FFT.permute (ops f) (vec v))
+  | [ "permute"; fl; v ] ->
+    let f = fld_of fl in
+    let v = vec v in
+    let r = show_vec (FFT.permute (ops f) v) in
+    if small (Stdlib.List.length v) then agree r (opt_vec (FFT.permute_c (ops f) true v)) else r
   | [ "spec:permute"; fl; v ] ->
     let a = Stdlib.Array.of_list (vec v) in
     let n = Stdlib.Array.length a in
@@ -72,13 +90,18 @@ let eval = function
     let size = Stdlib.List.length v / int_of_string stride in
     (match tw_of f tw size false with
      | None -> "panic"
-     | Some t -> show_vec (FFT.fft_in_place (ops f) (nat_of_int (Stdlib.List.length v)) v t (nat count) (nat stride) (nat offset)))
+     | Some t ->
+       let fuel = nat_of_int (Stdlib.List.length v) in
+       let r = show_vec (FFT.fft_in_place (ops f) fuel v t (nat count) (nat stride) (nat offset)) in
+       if small (Stdlib.List.length v) then agree r (opt_vec (FFT.fft_in_place_c (ops f) true fuel v t (nat count) (nat stride) (nat offset))) else r)
   | [ "evalt"; fl; tw; v ] ->
     let f = fld_of fl in
     let v = vec v in
     (match tw_of f tw (Stdlib.List.length v) false with
      | None -> "panic"
-     | Some t -> opt_vec (FFT.evaluate_poly (ops f) (adn f) v t))
+     | Some t ->
+       let r = opt_vec (FFT.evaluate_poly (ops f) (adn f) v t) in
+       if small (Stdlib.List.length v) then agree r (opt_vec (FFT.evaluate_poly_c (ops f) true (adn f) v t)) else r)
   | [ "spec:evalt"; fl; "std"; v ] ->
     let f = fld_of fl in
     let v = vec v in
@@ -89,7 +112,10 @@ let eval = function
     let v = vec v in
     (match tw_of f tw (Stdlib.List.length v) false with
      | None -> "panic"
-     | Some t -> opt_vec (FFT.evaluate_poly_with_offset (ops f) (adn f) (rootf f) v t (z off) (nat blowup)))
+     | Some t ->
+       let r = opt_vec (FFT.evaluate_poly_with_offset (ops f) (adn f) (rootf f) v t (z off) (nat blowup)) in
+       if small (Stdlib.List.length v * (try int_of_string blowup with _ -> 1))
+       then agree r (opt_vec (FFT.evaluate_poly_with_offset_c (ops f) true (adn f) (rootf f) v t (z off) (nat blowup))) else r)
   | [ "spec:eval_off"; fl; "std"; off; blowup; v ] ->
     let f = fld_of fl in
     let v = vec v in
@@ -100,7 +126,9 @@ let eval = function
     let v = vec v in
     (match tw_of f tw (Stdlib.List.length v) true with
      | None -> "panic"
-     | Some t -> opt_vec (FFT.interpolate_poly (ops f) (adn f) v t))
+     | Some t ->
+       let r = opt_vec (FFT.interpolate_poly (ops f) (adn f) v t) in
+       if small (Stdlib.List.length v) then agree r (opt_vec (FFT.interpolate_poly_c (ops f) true (adn f) v t)) else r)
   | [ "spec:interpt"; fl; "std"; v ] ->
     let f = fld_of fl in
     let v = vec v in
@@ -112,7 +140,9 @@ let eval = function
     let v = vec v in
     (match tw_of f tw (Stdlib.List.length v) true with
      | None -> "panic"
-     | Some t -> opt_vec (FFT.interpolate_poly_with_offset (ops f) (adn f) v t (z off)))
+     | Some t ->
+       let r = opt_vec (FFT.interpolate_poly_with_offset (ops f) (adn f) v t (z off)) in
+       if small (Stdlib.List.length v) then agree r (opt_vec (FFT.interpolate_poly_with_offset_c (ops f) true (adn f) v t (z off))) else r)
   | [ "spec:interp_off"; fl; "std"; off; v ] ->
     let f = fld_of fl in
     let v = vec v in
@@ -121,9 +151,10 @@ let eval = function
     show_vec (FFT.spec_interpolate_offset (ops f) k (inv f (rootf f k)) (inv f (z_of_int n)) (inv f (z off)) v)
   | [ "degree"; fl; off; v ] ->
     let f = fld_of fl in
-    (match FFT.infer_degree (ops f) (adn f) (rootf f) (vec v) (z off) with
-     | None -> "panic"
-     | Some d -> string_of_int (int_of_nat d))
+    let sd = function None -> "panic" | Some d -> string_of_int (int_of_nat d) in
+    let v = vec v in
+    let r = sd (FFT.infer_degree (ops f) (adn f) (rootf f) v (z off)) in
+    if small (Stdlib.List.length v) then agree r (sd (FFT.infer_degree_c (ops f) true (adn f) (rootf f) v (z off))) else r
   | [ "spec:degree"; fl; off; v ] ->
     let f = fld_of fl in
     let v = vec v in
